@@ -296,6 +296,9 @@ def run(ctx):
     xo_bw = [1, 32, 63, 64, 65, 128, 130] + ([] if q else [256])
     for bw in xo_bw:
         btasks.append(dict(mod='fam.prngcheck', fn='xoroshiro_protocol', kw=dict(bitwidth=bw, seed=ctx.seed + 1)))
+    for sp in range(6):
+        for bw in (64, 100):
+            btasks.append(dict(mod='fam.prngcheck', fn='xoroshiro_protocol', kw=dict(bitwidth=bw, seed=ctx.seed + 1, special=sp)))
     tv = [(8, 64), (64, 64), (65, 32), (128, 64), (1, 1), (13, 4)] + ([] if q else [(256, 64), (64, 8), (64, 16), (33, 2)])
     for bw, bpc in tv:
         btasks.append(dict(mod='fam.prngcheck', fn='trivium_protocol', kw=dict(bitwidth=bw, bpc=bpc, seed=ctx.seed + 1)))
